@@ -1,6 +1,7 @@
 package main
 
 import (
+	"os"
 	"fmt"
 	"go/ast"
 	"go/token"
@@ -62,9 +63,35 @@ func g9Tabulate(c *Ctx, name string, fi *FuncInfo) {
 		}
 	}
 	c.Rep.analysed("G9_rows:"+name, rows)
+	if short == "canEqual" && strings.HasPrefix(name, "equal.") {
+		// `==` on a struct is field-wise ==: it bypasses the Equal method of every component. The predicate that licenses `==`
+		// must therefore refuse a type that declares its own Equal method (and with it every struct or array containing one).
+		if !g9AsksMethod[name] {
+			c.Rep.fail(Finding{Rule: "G9", Key: "G9|" + name + "|ignores-equal-method", Where: []string{c.Repo.pos(fi.Decl.Pos())},
+				Msg: name + " never asks whether the type declares its own Equal method: a struct without an Equal method that contains a component with one (type W struct{ D Dec }) is compared with `==` wherever W is itself a component, so Dec's Equal method is bypassed there although it decides when W is compared at top level"})
+		} else {
+			c.Rep.pass("G9")
+		}
+	}
 }
 
+// g9AsksMethod: predicates whose tabulation met a method-lookup question (set by g9Row).
+var g9AsksMethod = map[string]bool{}
+
 func g9Row(c *Ctx, name, short string, fi *FuncInfo, in *Interp, arg *VOpaque, res Value, msg string) {
+	if os.Getenv("GDV_DEBUG_G9") != "" {
+		fmt.Fprintf(os.Stderr, "G9ROW %s %v res=%v msg=%s\n", name, in.decisions, res, msg)
+	}
+	for _, d := range in.decisions {
+		if strings.Contains(d.Sym, "MethodInputParam(") || strings.HasSuffix(d.Fn, "MethodInputParam") {
+			g9AsksMethod[name] = true
+			// a type with its own Equal method must be refused
+			if b, ok := res.(VBool); ok && d.Choice == 0 && strings.HasSuffix(d.Sym, "!=nil") && b.Known && b.V && strings.Contains(d.Sym, "("+arg.Origin+",)") {
+				c.Rep.fail(Finding{Rule: "G9", Key: "G9|" + name + "|accepts-type-with-equal-method", Where: []string{c.Repo.pos(fi.Decl.Pos())},
+					Msg: name + " accepts a type that declares its own Equal method: `==` would be emitted for it and the method bypassed"})
+			}
+		}
+	}
 	desc := func() string {
 		var ss []string
 		for _, d := range in.decisions {
